@@ -74,6 +74,12 @@ func LoadCase(cj *CaseJ) (*gen.Case, error) {
 		if err := json.Unmarshal(raw, &m); err != nil {
 			return nil, err
 		}
+		if ev, _ := m["ev"].(string); ev == "env" {
+			b, _ := m["backoff"].(bool)
+			c.Calls = append(c.Calls, gen.Call{Ev: "env", Backoff: b, Called: am.S{}, Veto: [][]any{},
+				Nest: []gen.NestAt{}})
+			continue
+		}
 		call := gen.Call{Ev: "call", Type: m["type"].(string), Veto: pairList(m["veto"]),
 			Panic: pairList(m["panic"]), Stall: pairList(m["stall"]), Nest: []gen.NestAt{}}
 		if v, ok := m["check"].(bool); ok {
